@@ -295,7 +295,7 @@ def gen_cases(ctx):
             ops = [('S',)] + pre + [('E', n + i, False, True) for i in range(n)] + [('D',)]
             cases.append((n, seed(), ops, 'rendezvous-after-panics'))
     # random scripts
-    nrand = 30000 - len(cases) if thorough else max(60, 300 - len(cases))
+    nrand = 30000 - len(cases) if thorough else max(60, 300 * ctx.scale - len(cases))
     for _ in range(max(0, nrand)):
         n = rng.choice([1, 1, 2, 2, 3, 4])
         k = rng.randint(0, 8)
